@@ -20,6 +20,7 @@ import TickitModel.Core.Flatten
 import TickitModel.Core.Master
 import TickitModel.Core.FailStop
 import TickitModel.Core.Contract
+import TickitModel.Core.Regex
 
 open Lean Tickit
 
@@ -330,6 +331,30 @@ def opContract (j : Json) : Json :=
         | _ => go rest b' (i + 1)
   go acts {} 0
 
+/-- regex AST from JSON: {"k":"chr","c":97} | {"k":"cls","r":[[a,b]..],"neg":bool} | {"k":"any"} | {"k":"eps"} |
+{"k":"seq","a":..,"b":..} | {"k":"alt","a":..,"b":..} | {"k":"star","a":..} | {"k":"opt","a":..} | {"k":"plus","a":..} -/
+instance : Inhabited Regex := ⟨.empty⟩
+
+partial def jRegex (j : Json) : Regex :=
+  match jstr (jfield j "k") with
+  | "chr" => .chr (Char.ofNat (jnat (jfield j "c")))
+  | "cls" => .cls ((jarr (jfield j "r")).map (fun p => match jarr p with
+      | [a, b] => (Char.ofNat (jnat a), Char.ofNat (jnat b))
+      | _ => ('a', 'a'))) (jbool (jfield j "neg"))
+  | "any" => .any
+  | "eps" => .eps
+  | "seq" => .seq (jRegex (jfield j "a")) (jRegex (jfield j "b"))
+  | "alt" => .alt (jRegex (jfield j "a")) (jRegex (jfield j "b"))
+  | "star" => .star (jRegex (jfield j "a"))
+  | "opt" => Regex.opt (jRegex (jfield j "a"))
+  | "plus" => Regex.plus (jRegex (jfield j "a"))
+  | _ => .empty
+
+def opRegex (j : Json) : Json :=
+  let r := jRegex (jfield j "re")
+  Json.arr ((jarr (jfield j "inputs")).map (fun s =>
+    Json.bool (r.accepts ((jarr s).map (fun c => Char.ofNat (jnat c))))) ).toArray
+
 def handleLine (line : String) : String :=
   match Json.parse line with
   | .error e => (Json.mkObj [("err", "parse:" ++ e)]).compress
@@ -345,6 +370,7 @@ def handleLine (line : String) : String :=
       | "command" => opCommand j
       | "zmq" => opZmq j
       | "config" => opConfig j
+      | "regex" => opRegex j
       | "master" => opMaster j
       | "failstop" => opFailStop j
       | "contract" => opContract j
